@@ -2706,6 +2706,11 @@ func (f *fragment) unprotectedRows(start uint64, filters ...rowFilter) []uint64 
 	for i.Next() {
 		key, c := i.Value()
 
+		// an emptied container that has not been removed yet holds no bits
+		if c.N() == 0 {
+			continue
+		}
+
 		// virtual row for the current container
 		vRow := key >> shardVsContainerExponent
 
